@@ -4,7 +4,8 @@ Leg M: TLC checks (MC_Missing) on every null pattern x formula x policy x caller
        set only grows and ends as exactly caller rows + null rows (drop), kept rows are the
        complement in order, raise fails iff some evaluated factor has a null.
 Leg R: every enumerated case is executed through the entry points (sugar, Formula, ModelSpec(s)
-       with and without call-time overrides, materializer) on frames whose index is default,
+       with and without call-time overrides, materializer, a materializer object that has already
+       answered another request) on frames whose index is default,
        string, unsorted or non-unique, for the three outputs; observed: cells, index label
        sequence, the caller's set afterwards, exception or not.
 """
@@ -76,6 +77,16 @@ def _build(formula, df, path, output, na, drop, context):
         return ModelSpec.from_spec(Formula(formula)).get_model_matrix(df, drop_rows=drop, context=context, na_action=na, output=output)
     if path == "narwhals":       # the option override that sends a pandas frame through the narwhals materializer
         return model_matrix(formula, df, na_action=na, output=output, drop_rows=drop, context=context, materializer="narwhals")
+    if path == "materializer_reused":
+        # the materializer object has a past: it was first asked, under the ignore policy and without a caller set, for a matrix over
+        # every column; the judged call must remove and report rows as if the object were new (MC_Missing speaks about one call: what
+        # an earlier call evaluated, kept or dropped is not among its arguments)
+        m = PandasMaterializer(df, context=context)
+        try:
+            m.get_model_matrix(Formula("a + b + A + C(A)" + (" + C(L)" if "L" in context else "")), na_action="ignore", output=["numpy", "pandas", "sparse"][len(formula) % 3])
+        except Exception:  # noqa  (what the earlier call answers is not judged here)
+            pass
+        return m.get_model_matrix(Formula(formula), drop_rows=drop, na_action=na, output=output)
     return PandasMaterializer(df, context=context).get_model_matrix(Formula(formula), drop_rows=drop, na_action=na, output=output)
 
 
@@ -140,6 +151,8 @@ def replay_case(case):
                    (INDEX_KINDS[(h + 3) % 4], PATHS[(h // 4 + 3) % len(PATHS)], "pandas")]
     if (case["nulls"]["a"] or case["nulls"]["A"]) and case["na"] == "drop":
         combos.append(("nonunique", PATHS[(h // 7) % len(PATHS)], "pandas"))
+    if h % 3 != 1:        # (added, not dealt among PATHS: the rotation of the other entry points stays as it was)
+        combos.append((INDEX_KINDS[(h // 3) % 4], "materializer_reused", OUTPUTS[(h // 12) % 3]))
     out = []
     for c in dict.fromkeys(combos):
         out += one(case, *c)
